@@ -30,6 +30,10 @@ inductive Op where
   | gm (a : GenArgs)
   | listId
   | modInfo (slot : Nat)
+  | plcName
+  | plcInfo (micro800 : Bool)
+  | plcTime
+  | setPlcTime (us : Nat)
   | withBlock (body : List Op) (bodyRaises : Bool)
 
 partial def op? : Sexp → Option Op
@@ -37,6 +41,10 @@ partial def op? : Sexp → Option Op
   | .list [.atom "close"] => some .close
   | .list [.atom "listid"] => some .listId
   | .list [.atom "modinfo", s] => (Sexp.toNat? s).map Op.modInfo
+  | .list [.atom "plcname"] => some .plcName
+  | .list [.atom "plcinfo", m] => (bool? m).map Op.plcInfo
+  | .list [.atom "plctime"] => some .plcTime
+  | .list [.atom "setplctime", u] => (Sexp.toNat? u).map Op.setPlcTime
   | .list [.atom "gm", svc, c, i, a, d, dt, n, conn, ucs, rt] => do
       let dt' : Option Ty ← (match dt with | .atom "N" => some none | t => (Ty.ofSexp t).map some)
       pure (.gm { service := ← Sexp.toNat? svc, cls := ← lval? c, inst := ← lval? i, attr := ← lval? a, data := ← Sexp.bytes? d,
@@ -84,6 +92,79 @@ def modInfoOp (w : W) (slot : Nat) : W × String :=
           | _ => (w1, renderExn .response)
         else (w1, renderExn .response)
 
+/-- LogixDriver.get_plc_name: the name or ResponseError -/
+def plcNameOp (w : W) : W × String :=
+  let (w0, pre) := ensureForwardOpen hookAll FUEL w
+  match pre with
+  | .error e => (w0, renderExn e)
+  | .ok _ =>
+    let (w1, r) := genericMessage hookAll FUEL w0
+      { service := 0x01, cls := .bytes [0x64], inst := .int 1, dataType := some (.str .uint .latin1), name := nm "get_plc_name" }
+    match r with
+    | .error _ => (w1, renderExn .response)
+    | .ok tag => if tag.truthy then (w1, "(ok " ++ tag.value.toSexp.render ++ ")") else (w1, renderExn .response)
+
+def keyswitchText (b0 b1 : Nat) : Name :=
+  match Status.lookupNat b0 Gen.keyswitch with
+  | some tbl => (Status.lookupNat b1 tbl).getD Ident.unknown
+  | none => Ident.unknown
+
+/-- LogixDriver.get_plc_info: identity dict + keyswitch, or ResponseError -/
+def plcInfoOp (w : W) (micro800 : Bool) : W × String :=
+  let (w1, r) := genericMessage hookAll FUEL w
+    { service := 0x01, cls := .bytes [0x01], inst := .bytes [0x01], connected := false, unconnectedSend := !micro800,
+      name := nm "get_plc_info" }
+  match r with
+  | .error _ => (w1, renderExn .response)
+  | .ok tag =>
+      if tag.truthy then
+        match tag.value with
+        | .bytes b =>
+            match Ident.decodeModuleIdentity b with
+            | .ok (.dict kvs, _) =>
+                match dictGet kvs ("status".toList.map Char.toNat) with
+                | some (.bytes [s0, s1]) =>
+                    (w1, "(identity " ++ (PyVal.dict (dictSet kvs ("keyswitch".toList.map Char.toNat)
+                        (.str (keyswitchText s0.toNat s1.toNat)))).toSexp.render ++ ")")
+                | _ => (w1, renderExn .response)
+            | _ => (w1, renderExn .response)
+        | _ => (w1, renderExn .response)
+      else (w1, renderExn .response)
+
+def usName : Name := [0xB5, 115]   -- "µs"
+
+/-- LogixDriver.get_plc_time: microseconds or a falsy tag -/
+def plcTimeOp (w : W) : W × String :=
+  let ty : Ty := .struct (.cons (some []) (.nbytes 6) (.cons (some usName) (.int .ulint) .nil))
+  let (w1, r) := genericMessage hookAll FUEL w
+    { service := 0x03, cls := .bytes [0x8b], inst := .bytes [0x01], data := [1, 0, 0x0B, 0], dataType := some ty }
+  match r with
+  | .error e => (w1, renderExn e)
+  | .ok tag =>
+      if tag.truthy then
+        match tag.value with
+        | .dict kvs =>
+            match dictGet kvs usName with
+            | some (.int us) =>
+                -- datetime(1970,1,1) + timedelta(microseconds=us) overflows after year 9999
+                if us ≥ 253402300800000000 then (w1, renderExn (.foreign "OverflowError"))
+                else (w1, "(time (i " ++ toString us ++ ") " ++ renderErr (.ok tag.error) ++ ")")
+            | _ => (w1, "(time N " ++ renderErr (.ok tag.error) ++ ")")
+        | _ => (w1, "(time N " ++ renderErr (.ok tag.error) ++ ")")
+      else (w1, "(time N " ++ renderErr (.ok tag.error) ++ ")")
+
+/-- LogixDriver.set_plc_time(us) -/
+def setPlcTimeOp (w : W) (us : Nat) : W × String :=
+  match encode (.struct (.cons none (.int .uint) (.cons none (.int .uint) (.cons none (.int .ulint) .nil))))
+      (.list [.int 1, .int 6, .int us]) with
+  | .error e => (w, renderExn e)
+  | .ok data =>
+    let (w1, r) := genericMessage hookAll FUEL w
+      { service := 0x04, cls := .bytes [0x8b], inst := .bytes [0x01], data := data, name := nm "set_plc_time" }
+    match r with
+    | .error e => (w1, renderExn e)
+    | .ok tag => (w1, renderTag tag)
+
 partial def runOp (rnd : List Bytes) (w : W) : Op → W × List Bytes × String
   | .open =>
       let (w', r) := openDrv hookAll w (rnd.headD [])
@@ -97,6 +178,10 @@ partial def runOp (rnd : List Bytes) (w : W) : Op → W × List Bytes × String
       (w', rnd, match r with | .ok t => renderTag t | .error e => renderExn e)
   | .listId => let (w', s) := listIdentityOp w; (w', rnd, s)
   | .modInfo s => let (w', out) := modInfoOp w s; (w', rnd, out)
+  | .plcName => let (w', out) := plcNameOp w; (w', rnd, out)
+  | .plcInfo m => let (w', out) := plcInfoOp w m; (w', rnd, out)
+  | .plcTime => let (w', out) := plcTimeOp w; (w', rnd, out)
+  | .setPlcTime u => let (w', out) := setPlcTimeOp w u; (w', rnd, out)
   | .withBlock body raises =>
       -- __enter__: open()
       let (w1, r) := openDrv hookAll w (rnd.headD [])
@@ -133,7 +218,59 @@ def opClientRun : List Sexp → String
               "ok (results " ++ " ".intercalate outs ++ ") (frames " ++
                 " ".intercalate (w.net.sent.map fun f => (Sexp.ofBytes f).render) ++ ") (connected " ++
                 renderBool w.drv.connectionOpened ++ ") " ++ (targetState w.net.target).drop 3 ++ " (log " ++
-                " ".intercalate (w.net.target.base.log.map renderEvent) ++ ")"
+                " ".intercalate (w.net.target.base.events.map renderEvent) ++ ")"
+      | _, _, _, _, _, _ => "bad-args"
+  | _ => "bad-args"
+
+end Pycomm
+
+namespace Pycomm
+open Sexp
+
+def renderDec (r : R (PyVal × Bytes)) : String :=
+  renderR (fun (x : PyVal × Bytes) => x.1.toSexp.render ++ " " ++ toString x.2.length) r
+
+def opIdentDecMod : List Sexp → String
+  | [b] => match Sexp.bytes? b with | some bs => renderDec (Ident.decodeModuleIdentity bs) | none => "bad-args"
+  | _ => "bad-args"
+
+def opIdentDecList : List Sexp → String
+  | [b] => match Sexp.bytes? b with | some bs => renderDec (Ident.decodeListIdentity bs) | none => "bad-args"
+  | _ => "bad-args"
+
+def opIdentEncMod : List Sexp → String
+  | [v] => match PyVal.ofSexp v with
+      | some v' => renderR (fun bs => (Sexp.ofBytes bs).render) (Ident.encodeModuleIdentity v')
+      | none => "bad-args"
+  | _ => "bad-args"
+
+end Pycomm
+
+namespace Pycomm
+open Sexp Encap
+
+/-- encap.build KIND session|N (b context) option (b cid)|N seq (b message) -/
+def opEncapBuild : List Sexp → String
+  | [.atom kind, sess, ctx8, opt, cid, seq, msg] =>
+      let sess' : Option (Option Nat) := match sess with | .atom "N" => some none | s => (Sexp.toNat? s).map some
+      match sess', Sexp.bytes? ctx8, Sexp.toNat? opt, optBytes? cid, Sexp.toNat? seq, Sexp.bytes? msg with
+      | some s, some c, some o, some cid', some sq, some m =>
+          let ctx : Ctx := { session := s, context := c, option := o, targetCid := cid' }
+          let req : Option Req := match kind with
+            | "register" => some (.registerSession (m.take 2) (m.drop 2))
+            | "unregister" => some .unregisterSession
+            | "listidentity" => some .listIdentity
+            | "rr" => some (.sendRR m)
+            | "unit" => some (.sendUnit sq m)
+            | _ => none
+          match req with
+          | some r =>
+              let out := buildRequest r ctx
+              renderR (fun bs => (Sexp.ofBytes bs).render ++ " " ++
+                (match parseFrame bs with
+                 | some f => "frame-ok " ++ (match parseCpf f.body with | some _ => "cpf-ok" | none => "cpf-none")
+                 | none => "frame-bad")) out
+          | none => "bad-args"
       | _, _, _, _, _, _ => "bad-args"
   | _ => "bad-args"
 
